@@ -239,7 +239,25 @@ class Fn:
         self._defs = d
         return d
 
+    def mut_borrowed(self):
+        """Locals whose own storage is mutably borrowed (`&mut l` / `&mut l.f`, not through a deref): their
+        value may change after their definition, so they are never substituted by their defining expression."""
+        if getattr(self, "_mutb", None) is None:
+            mb = set()
+            for bi, si, s in self.statements():
+                if s[0] == "a":
+                    rv = s[2]
+                    if rv["k"] in ("ref", "rawptr") and rv.get("mut"):
+                        p = rv["p"]
+                        proj = pl_proj(p)
+                        if not any(e[0] == "deref" for e in proj) and self.local_name(pl_local(p)):
+                            mb.add(pl_local(p))
+            self._mutb = mb
+        return self._mutb
+
     def unique_def(self, local):
+        if local in self.mut_borrowed():
+            return None
         ds = self.defs().get(local, [])
         full = [x for x in ds if x[2] in ("assign", "call")]
         if len(ds) == 1 and len(full) == 1:
